@@ -253,6 +253,7 @@ def cases(tier, seed):
         out.append({"k": "arrays", "s": list(shape)})
     out.append({"k": "names"})
     out.append({"k": "twins"})
+    out.append({"k": "extra"})
     for i0 in range(0, n, 22):
         out.append({"k": "sympy", "i0": i0, "i1": min(n, i0 + 22)})
     return out
@@ -295,6 +296,11 @@ def run_case(case, R):
                 t = list({e: c for e, c in t}.items())
                 render_and_check(R, spec(names, (), t), f"{names} {t}", DISPLAY, SIGNS[:3], ["0-d", "names"])
                 render_and_check(R, spec(names, (2,), [(e, [c, -c]) for e, c in t]), f"{names} {t} array", DISPLAY[:2], SIGNS[:2], ["array", "names"])
+    elif k == "extra":
+        specs = [sp for _, sp in space.wide_specs()] + [sp for _, sp in space.wide_array_specs()] + space.magnitude_specs()
+        for i, sp in enumerate(specs):
+            R.state(("extra", i))
+            render_and_check(R, sp, f"extra {i} {sp['n'][:3]} {str(sp['t'])[:60]}", [DISPLAY[0], DISPLAY[6]], SIGNS[:2], ["wide_or_magnitude"])
     elif k == "twins":
         # colliding inputs printed one after the other in one process (state shared between two prints)
         for cfg in (DISPLAY[0], DISPLAY[5]):
